@@ -80,8 +80,8 @@ static std::string dumpObj(VObj *o) { return show(o->b_) + "," + show(o->i_) + "
 '''
 
 
-def driver_source(objects, evals, handlers):
-    """evals: [(function name)], handlers: [(object id, signal name, [arg types])]"""
+def driver_source(objects, evals, handlers, targets=()):
+    """evals: [(function name)], handlers: [(object id, signal name, [arg types])], targets: [(object id, property)] dumped by the T command"""
     lines = [DRIVER_HEAD, "int main() {"]
     for n, c in objects:
         lines.append("    %s %s_obj; %s_obj.objectName_ = \"%s\";" % (c, n, n, n))
@@ -120,16 +120,25 @@ def driver_source(objects, evals, handlers):
     lines.append("            default: break; }")
     lines.append("            std::string t; for (size_t q = 0; q < trace().lines.size(); ++q) { if (q) t += \";\"; t += trace().lines[q]; }")
     lines.append("            std::cout << \"R \" << t << \" # \" << dumpObj(world[0]) << \" \" << dumpObj(world[1]) << \" \" << dumpObj(world[2]) << \" \" << dumpObj(world[3]) << \" \" << dumpObj(owners.empty() ? world[3] : owners[k < (int)owners.size() ? k : 0]) << std::endl; }")
+    lines.append("        else if (cmd == \"S\") { if (!is_setup) { s.setup(); is_setup = true; } std::cout << \"R ok\" << std::endl; }")
+    lines.append("        else if (cmd == \"C\") { int k; std::string p, v; in >> k >> p >> v; VObj *o = world[k];")
+    lines.append("            if (p == \"b\") o->setB(v == \"1\"); else if (p == \"i\") o->setI(int(std::stoll(v))); else if (p == \"u\") o->setU(uint(std::stoull(v))); else if (p == \"s\") o->setS(unhex(v));")
+    lines.append("            else if (p == \"next\") o->setNext(v == \"null\" ? nullptr : v == \"a\" ? world[0] : v == \"b\" ? world[1] : world[2]);")
+    lines.append("            std::cout << \"R ok\" << std::endl; }")
+    lines.append("        else if (cmd == \"T\") { std::string r;")
+    for (oid, p) in targets:
+        lines.append("            r += show(%s_obj.%s_) + \" \";" % (oid, p) if p != "next" else "            r += show(static_cast<const QObject *>(%s_obj.next_)) + \" \";" % oid)
+    lines.append("            std::cout << \"R \" << r << std::endl; }")
     lines.append("    }")
     lines.append("    return 0;")
     lines.append("}")
     return "\n".join(lines) + "\n"
 
 
-def build(dirpath, objects, header, evals, handlers, sanitize=True):
+def build(dirpath, objects, header, evals, handlers, sanitize=True, targets=()):
     cxx.write_runtime(dirpath, objects)
     open(os.path.join(dirpath, "uisupport_mytype.h"), "w").write(header)
-    open(os.path.join(dirpath, "driver.cpp"), "w").write(driver_source(objects, evals, handlers))
+    open(os.path.join(dirpath, "driver.cpp"), "w").write(driver_source(objects, evals, handlers, targets))
     flags = ["-std=c++17", "-O0", "-w", "-I", dirpath]
     if sanitize:
         flags += ["-fsanitize=address,undefined", "-fno-sanitize-recover=undefined", "-fno-omit-frame-pointer"]
